@@ -21,7 +21,7 @@ def Seg.dataSeq (p : Seg) : Int := if p.syn then p.seq + 1 else p.seq
 /-- A segment is consistent with sender stream `S` and initial sequence number `i` (offset space:
     sequence numbers are NOT reduced modulo 2^32 here; `Seg.wrap` does that). -/
 def SegOK (S : List UInt8) (i : Int) (p : Seg) : Prop :=
-  (p.syn = true → p.seq = i) ∧ At S (i + 1) p.dataSeq p.bytes ∧
+  (p.syn = true → p.seq = i ∧ p.fin = false) ∧ At S (i + 1) p.dataSeq p.bytes ∧
   (p.fin = true → p.dataSeq + p.bytes.length = i + 1 + S.length)
 
 /-- the same segment as it appears on the wire -/
